@@ -76,7 +76,9 @@ def configs(tier):
                     for sel in sels:
                         out.append({'backend': backend, 'K': K, 'nc': nc, 'dtype': dtype, 'item': item,
                                     'sel': sel[1]})
-    out.append({'backend': 'meta', 'K': 3, 'nc': 2, 'dtype': 'int16', 'item': 'meta', 'sel': None})
+    for mb, mk, mdt in (('flat', 3, 'int16'), ('flat', 1, 'float32'), ('npy', 1, 'float64'), ('array', 1, 'int16'),
+                        ('cbin', 1, 'int16')):
+        out.append({'backend': 'meta', 'meta_backend': mb, 'K': mk, 'nc': 2, 'dtype': mdt, 'item': 'meta', 'sel': None})
     return out
 
 
@@ -99,8 +101,8 @@ def run_config(cfg, e):
     def fn():
         vfs.reset()
         pkg = env.make_pkg(record=e.functions)
-        rec = SymRecording(e, cfg['backend'] if cfg['backend'] != 'meta' else 'flat', cfg['K'], cfg['nc'],
-                           cfg['dtype'])
+        rec = SymRecording(e, cfg['backend'] if cfg['backend'] != 'meta' else cfg.get('meta_backend', 'flat'),
+                           cfg['K'], cfg['nc'], cfg['dtype'])
         n = rec.n
         kind = cfg['item']
         info = {}
